@@ -22,6 +22,9 @@
 //       refname NAME x,y ROT MAG XREFL     always by name
 //       rep rect C R SX SY | rep reg C R V1X V1Y V2X V2Y | rep ex N x,y.. | rep exx N c.. | rep exy N c..
 //       prop NAME v..  (v = u:N | i:N | r:DOUBLE | s:HEX)  attaches to the last element/cell; libprop NAME v..
+//       xf scale M CX,CY | xf mirror X0,Y0 X1,Y1 | xf rotate ANGLE CX,CY | xf transform MAG XREFL ROT OX,OY
+//                                          applies the gdstk transformation to the last element (polygon, flexpath, robustpath;
+//                                          label and reference: transform only) -- a transformation history before the save
 //     Property lists and value lists keep the order given.
 //   history <prefix> <circle_tolerance> ; <cmd> ; <cmd> ... | <op> | <op> ...     one Library object through a save history
 //     ops:  write LEVEL FLAGS          write_oas to <prefix>.<k>.oas (k = 0,1,.. per write); the library is dumped first
@@ -83,6 +86,8 @@ struct Builder {
     Cell* cur = NULL;
     Repetition* last_rep = NULL;
     Property** last_props = NULL;
+    char last_kind = 0;  // p polygon, f flexpath, r robustpath, l label, R reference
+    void* last_obj = NULL;
     struct Pending { Reference* ref; std::string name; bool force_name; };
     std::vector<Pending> pending;
     std::string error;
@@ -134,6 +139,7 @@ struct Builder {
             pool[t[1]] = cur;
             if (c == "cell") lib.cell_array.append(cur); else outside.push_back(cur);
             last_rep = NULL;
+            last_obj = NULL;
             last_props = &cur->properties;
         } else if (c == "libprop") {
             if (!need(2)) return false;
@@ -161,6 +167,39 @@ struct Builder {
                 r.type = t[1] == "exx" ? RepetitionType::ExplicitX : RepetitionType::ExplicitY;
                 for (size_t i = 3; i < t.size(); i++) r.coords.append(strtod(t[i].c_str(), NULL));
             } else { error = "bad rep"; return false; }
+        } else if (c == "xf") {
+            if (!need(4) || !last_obj) { error = "xf without element"; return false; }
+            const std::string& op = t[1];
+            if (op == "scale") {
+                double m = strtod(t[2].c_str(), NULL);
+                Vec2 ce = vec(t[3]);
+                if (last_kind == 'p') ((Polygon*)last_obj)->scale(Vec2{m, m}, ce);
+                else if (last_kind == 'f') ((FlexPath*)last_obj)->scale(m, ce);
+                else if (last_kind == 'r') ((RobustPath*)last_obj)->scale(m, ce);
+                else { error = "xf scale on this element kind"; return false; }
+            } else if (op == "mirror" && need(4)) {
+                Vec2 a = vec(t[2]), b2 = vec(t[3]);
+                if (last_kind == 'p') ((Polygon*)last_obj)->mirror(a, b2);
+                else if (last_kind == 'f') ((FlexPath*)last_obj)->mirror(a, b2);
+                else if (last_kind == 'r') ((RobustPath*)last_obj)->mirror(a, b2);
+                else { error = "xf mirror on this element kind"; return false; }
+            } else if (op == "rotate") {
+                double a = strtod(t[2].c_str(), NULL);
+                Vec2 ce = vec(t[3]);
+                if (last_kind == 'p') ((Polygon*)last_obj)->rotate(a, ce);
+                else if (last_kind == 'f') ((FlexPath*)last_obj)->rotate(a, ce);
+                else if (last_kind == 'r') ((RobustPath*)last_obj)->rotate(a, ce);
+                else { error = "xf rotate on this element kind"; return false; }
+            } else if (op == "transform" && need(6)) {
+                double m = strtod(t[2].c_str(), NULL), rot = strtod(t[4].c_str(), NULL);
+                bool xr = t[3] != "0";
+                Vec2 o = vec(t[5]);
+                if (last_kind == 'p') ((Polygon*)last_obj)->transform(m, xr, rot, o);
+                else if (last_kind == 'f') ((FlexPath*)last_obj)->transform(m, xr, rot, o);
+                else if (last_kind == 'r') ((RobustPath*)last_obj)->transform(m, xr, rot, o);
+                else if (last_kind == 'l') ((Label*)last_obj)->transform(m, xr, rot, o);
+                else ((Reference*)last_obj)->transform(m, xr, rot, o);
+            } else { error = "bad xf"; return false; }
         } else if (!cur) {
             error = "element outside a cell";
             return false;
@@ -170,6 +209,7 @@ struct Builder {
             p->tag = make_tag((uint32_t)strtoul(t[1].c_str(), NULL, 10), (uint32_t)strtoul(t[2].c_str(), NULL, 10));
             for (size_t i = 3; i < t.size(); i++) p->point_array.append(vec(t[i]));
             cur->polygon_array.append(p);
+            last_kind = 'p'; last_obj = p;
             last_rep = &p->repetition; last_props = &p->properties;
         } else if (c == "fpath" || c == "rpath") {
             if (!need(5)) return false;
@@ -198,6 +238,7 @@ struct Builder {
                 fp->simple_path = simple; fp->scale_width = scalew;
                 for (size_t e = 0; e < nel; e++) { fp->elements[e].end_type = en[e]; fp->elements[e].end_extensions = Vec2{eu[e], ev[e]}; }
                 cur->flexpath_array.append(fp);
+                last_kind = 'f'; last_obj = fp;
                 last_rep = &fp->repetition; last_props = &fp->properties;
             } else {
                 RobustPath* rp = (RobustPath*)allocate_clear(sizeof(RobustPath));
@@ -206,6 +247,7 @@ struct Builder {
                 rp->simple_path = simple; rp->scale_width = scalew;
                 for (size_t e = 0; e < nel; e++) { rp->elements[e].end_type = en[e]; rp->elements[e].end_extensions = Vec2{eu[e], ev[e]}; }
                 cur->robustpath_array.append(rp);
+                last_kind = 'r'; last_obj = rp;
                 last_rep = &rp->repetition; last_props = &rp->properties;
             }
         } else if (c == "label") {
@@ -223,6 +265,7 @@ struct Builder {
                 l->magnification = strtod(t[7].c_str(), NULL); l->x_reflection = t[8] != "0";
             }
             cur->label_array.append(l);
+            last_kind = 'l'; last_obj = l;
             last_rep = &l->repetition; last_props = &l->properties;
         } else if (c == "ref" || c == "refname") {
             if (!need(6)) return false;
@@ -235,6 +278,7 @@ struct Builder {
             r->name = copy_string(t[1].c_str(), NULL);
             pending.push_back({r, t[1], c == "refname"});
             cur->reference_array.append(r);
+            last_kind = 'R'; last_obj = r;
             last_rep = &r->repetition; last_props = &r->properties;
         } else {
             error = "unknown command " + c;
